@@ -35,6 +35,11 @@ var c20Payloads = []struct{ Name, V string }{
 	{"newline-and-tab", "line1\r\n<b>bold</b>\tend"},
 	{"message-with-url", "session expired, sign in again at https://login.evil.test/sso?next=1 or http://evil.test"},
 	{"brace-prefixed-text", "{access_denied} {\"a\":1} (truncated"},
+	// text that already looks escaped: one unescape too many turns it into markup or into an illegal JSON escape
+	{"literal-unicode-escapes", `denied \u003cadmin\u003e a \u0026 b \x3cscript\x3e %3Cb%3E &#60;i&#62;`},
+	// long values (length thresholds): markup followed by a long tail
+	{"long-value-with-markup", `<plaintext>.payments-reconciliation-and-settlement-service-eu-west-1`},
+	{"long-attribute-breakout", `"><img src=x onerror=alert(1)>` + strings.Repeat("a", 80)},
 }
 
 const c20Benign = "benign-value-123"
@@ -294,7 +299,7 @@ func init() {
 	fw.Register(&fw.Check{
 		ID:    "C20",
 		Level: "exploration",
-		Rule: "full product of 14 payloads (thorough: plus each of the 256 byte values inside a benign value and all 400 ordered pairs of 20 metacharacters in front of an event-handler-shaped tail) (URL-bearing text, brace-prefixed text, script element, attribute break-out with double and single quotes, </title> break-out, javascript: URL, entity-encoded markup, UTF-7, overlong UTF-8, NUL, template actions, comment break-out, CR/LF/TAB) x 14 request-controlled positions on the real services " +
+		Rule: "full product of 17 payloads (text that already looks escaped, long values with markup, thorough: plus each of the 256 byte values inside a benign value and all 400 ordered pairs of 20 metacharacters in front of an event-handler-shaped tail) (URL-bearing text, brace-prefixed text, script element, attribute break-out with double and single quotes, </title> break-out, javascript: URL, entity-encoded markup, UTF-7, overlong UTF-8, NUL, template actions, comment break-out, CR/LF/TAB) x 14 request-controlled positions on the real services " +
 			"(proxy callback `error`; authenticator callback `error`, sign-in page redirect_uri query / raw path / host label / state and parameter names, sign-out page redirect_uri and session email, sign-in / sign-out page with a javascript:-scheme redirect_uri whose host is in domain, sign_in / start / client_id / redeem error responses) x {HTML, Accept: application/json (or XHR) where the position has a JSON rendering}; " +
 			"oracle: the HTML token structure (element names and attribute names, via golang.org/x/net/html's tokenizer) equals that of the same page rendered with a benign value, no URL attribute carries a script URL, and JSON bodies parse; " +
 			"distinct_nontrivial = distinct (position, payload, json, status, reflected?)",
